@@ -309,8 +309,15 @@ func (s *server) processChunkWithReordering(stream clusterv1.ChunkedSyncService_
 	buffer.lastActivity = time.Now()
 
 	if req.ChunkIndex == buffer.expectedIndex {
+		received := session.chunksReceived
 		if processErr := s.processExpectedChunk(stream, session, req); processErr != nil {
 			return processErr
+		}
+		if session.chunksReceived == received {
+			// The chunk was rejected (checksum mismatch) and the client was told so: keep
+			// expecting the same index, otherwise its retry is answered "duplicate ignored"
+			// and the chunk's bytes are never written.
+			return nil
 		}
 		buffer.expectedIndex++
 
